@@ -1056,6 +1056,8 @@ class XsdElement(XsdComponent, ParticleMixin,
                 elem.text = self.fixed
             elif self.default is not None and context.use_defaults:
                 elem.text = self.default
+            elif not xsd_type.is_valid(''):
+                errors.append("empty content is not valid for the element's type.")
 
         elif isinstance(xsd_type.content, XsdSimpleType):
             if xsd_type.content.max_length == 0:
@@ -1072,6 +1074,8 @@ class XsdElement(XsdComponent, ParticleMixin,
                 elem.text = self.fixed
             elif self.default is not None and context.use_defaults:
                 elem.text = self.default
+            elif not xsd_type.content.is_valid(''):
+                errors.append("empty content is not valid for the element's type.")
 
         else:
             context.level += 1
